@@ -284,7 +284,9 @@ class C20(Prop):
             "vertices; inspect(v) from every present vertex (a process time-out counts as non-termination), Debug/Display and "
             "v_print(v) for every vertex; the printed lines are parsed back and compared with the implementation's own "
             "snapshot: every edge of every vertex reachable from v exactly once, exactly the present vertices with all edges "
-            "and data, the data marker iff the vertex has data.  Non-trivial = a graph with a cycle reachable from the start; "
+            "and data, the data marker iff the vertex has data, where \"has data\" is also derived from the calls themselves (a put "
+            "since the vertex was last created; recycled slots with zero-length data in their past).  Non-trivial = a graph with "
+            "a cycle reachable from the start; "
             "distinct = distinct inspect text")
 
     def generate(self, rng, tier):
@@ -663,7 +665,8 @@ class C12(MergeProp):
     shrink_ok = False
     rule = ("right graphs made of a random tree of 1..5 vertices plus 0..3 extras (isolated present vertices with and "
             "without data, detached two-vertex sub-trees), random left trees, every choice of `left`, `right` = the root or an "
-            "inner vertex of the tree; oracle: Ok only if every present vertex of the right graph is reachable from `right`; "
+            "inner vertex of the tree; oracle: Ok only if every present vertex of the right graph is reachable from `right` and, "
+            "after the merge, has a present image along its labelled path from `left`; "
             "otherwise Err whose message names exactly the present vertices that were not reached (ascending).  Non-trivial = "
             "the right graph has at least one unreachable present vertex; distinct = distinct (right graph, result)")
 
@@ -1277,7 +1280,8 @@ class C07(SpecProp):
             "capacity incl. usize::MAX, absent endpoints, self binds, allocator exhaustion) followed by unprotected random calls, "
             "for N in {1,2,4,16} and capacities {1,2,8,64}, plus C02's in-limits mix; compared call by call: panic / no panic "
             "and the complete state must equal the model's, inside the limits no call may panic (reference model), and the "
-            "harness process must end normally (an abort or a sanitizer report is a violation).  In the thorough tier the whole "
+            "harness process must end normally (an abort or a sanitizer report is a violation); single-character faults of "
+            "script texts (characters from several scripts) must come back as Err where the model says Err.  In the thorough tier the whole "
             "stream is run a second time on a harness built with AddressSanitizer.  Non-trivial = a history that ends in a "
             "panic; distinct = distinct (last call, state before it)")
     assumptions = ["memory safety of the unsafe code inside emap/micromap/microstack is not modelled; ASan (thorough tier) is supporting evidence only",
